@@ -3,7 +3,7 @@
 using namespace vf;
 namespace {
 namespace c17 { enum K { WRITE = 0, SEEK, TELL, SIZE, READ_BUF, READ_ALL, READ_STR, REOPEN, W_SEEK, W_REOPEN }; }
-namespace c18 { enum K { MKDIR = 0, MKFILE, STR_LAW, STR_ANY, V_PUSH_CTOR, V_PUSH_DEFAULT, V_SET, V_VISIT, V_RESTORE, V_POP, V_CHDIR }; }
+namespace c18 { enum K { MKDIR = 0, MKFILE, STR_LAW, STR_ANY, V_PUSH_CTOR, V_PUSH_DEFAULT, V_SET, V_VISIT, V_RESTORE, V_POP, V_CHDIR, MKCHAIN }; }
 
 // byte strings biased to NUL, 0xFF, CR, LF, 0x1A (CRLF pairs arise naturally)
 rc::Gen<std::string> content(int maxLen) {
@@ -16,10 +16,10 @@ Register r17("C17", [](Tier t) {
     using namespace c17;
     auto ops = genOps({{WRITE, 8, 3, 8191, 3}, {SEEK, 6, 2, 8191, 7}, {SIZE, 6, 0, 0, 0}, {TELL, 2, 0, 0, 0}, {READ_BUF, 6, 1, 4, 11}, {READ_ALL, 3, 0, 0, 0}, {READ_STR, 3, 0, 0, 0},
                        {REOPEN, 1, 0, 0, 0}, {W_SEEK, 3, 0, 8191, 0}, {W_REOPEN, 1, 0, 3, 0}}, 28);
-    // h: write mode, pre-existing content selector, read mode, repeat factor (x256 KiB), error case selector (1: missing, 2: directory), flush
+    // h: write mode, pre-existing content selector, read mode, repeat factor (x256 KiB), error case selector (1: missing, 2: directory), bit0 flush | bit1 one File object for the whole history
     int bigMax = t == THOROUGH ? 128 : 16;
-    auto normal = genHeader({{0, 3}, {0, 40}, {0, 1}, {0, 0}, {0, 0}, {0, 1}});
-    auto large = genHeader({{0, 3}, {0, 40}, {0, 1}, {1, bigMax}, {0, 0}, {0, 1}});
+    auto normal = genHeader({{0, 3}, {0, 40}, {0, 1}, {0, 0}, {0, 0}, {0, 3}});
+    auto large = genHeader({{0, 3}, {0, 40}, {0, 1}, {1, bigMax}, {0, 0}, {0, 3}});
     auto errs = genHeader({{0, 3}, {0, 40}, {0, 1}, {0, 0}, {1, 2}, {0, 1}});
     auto sched = rc::gen::just(std::vector<uint8_t>{});
     return rc::gen::weightedOneOf<Case>({{30, genCase("C17", normal, ops, sched, content(4096))}, {1, genCase("C17", large, ops, sched, content(600))},
@@ -27,7 +27,7 @@ Register r17("C17", [](Tier t) {
 });
 Register r18("C18", [](Tier t) {
     using namespace c18;
-    auto tree = genOps({{MKDIR, 8, 63, 255, 255}, {MKFILE, 10, 63, 255, 255}}, t == THOROUGH ? 70 : 36);
+    auto tree = genOps({{MKDIR, 8, 63, 255, 255}, {MKFILE, 10, 63, 255, 255}, {MKCHAIN, 1, 63, 255, 255}}, t == THOROUGH ? 70 : 36);
     auto strs = genOps({{STR_LAW, 10, 255, 255, 255}, {STR_ANY, 4, 255, 255, 255}}, 30);
     auto vis = genOps({{MKDIR, 6, 63, 255, 255}, {V_PUSH_CTOR, 6, 63, 255, 0}, {V_PUSH_DEFAULT, 2, 0, 0, 0}, {V_SET, 3, 63, 255, 0}, {V_VISIT, 4, 0, 0, 0}, {V_RESTORE, 2, 0, 0, 0},
                        {V_POP, 5, 0, 0, 0}, {V_CHDIR, 3, 0, 255, 0}}, 30);
